@@ -39,8 +39,10 @@ def shunting_yard(expr_nodes: list[ExprNode]) -> list[ExprNode]:
         elif isinstance(expr, BinOp) or isinstance(expr, UnaryOp):
             current_precedence = OPERATOR_PRECEDENCE[expr.token.value] if isinstance(expr, BinOp) else 2
 
+            # unary operators are prefix (right associative): they never pop an operator
             while (
-                len(operator_stack) > 0
+                isinstance(expr, BinOp)
+                and len(operator_stack) > 0
                 and OPERATOR_PRECEDENCE[operator_stack[-1].token.value] <= current_precedence
                 and operator_stack[-1].token.value != "("
             ):
